@@ -182,11 +182,11 @@ def run(ck, facts, tier):
 
     # ---------------- R03.1 / R03.2 aligned mixing and hint discipline in all in-crate bodies
     r1 = ck.rule("R03.1", "aligned mixing: inside a match on a vars_cmp result, an arm whose patterns are not within {ArcEquivalent, ValueEquivalent} never combines the "
-                          "dual/dual2 arrays of two different numbers directly — only those of the pair returned by to_union_vars/to_combined_vars (or of one number)", floor=15)
+                          "dual/dual2 arrays of two different numbers directly — only those of the pair returned by to_union_vars/to_combined_vars (or of one number)", floor=2)
     r2 = ck.rule("R03.2", "hint discipline: the relationship hint passed to to_union_vars is None or the very result of vars_cmp between the same two operands; "
-                          "literal hints to to_new_vars are judged by R03.3/R03.5 evaluation", floor=12)
-    # floors of these two discovered-instance rules are half of today's counts (30 / 24): folding the classify-and-align skeleton of several operators into one
-    # shared helper lowers the number of sites without weakening either rule, while an anchor that is no longer found at all still fails closed
+                          "literal hints to to_new_vars are judged by R03.3/R03.5 evaluation", floor=2)
+    # floors of these two discovered-instance rules are far below today's counts (30 / 24): folding the classify-and-align skeleton of all operators into one
+    # shared helper leaves a handful of sites without weakening either rule, while an anchor that is no longer found at all still fails closed
     for r in facts.all_fns():
         if not r["file"].startswith("rust/dual/") and not r["file"].startswith("rust/splines/"):
             continue
